@@ -36,8 +36,7 @@ type Run struct {
 	start           time.Time
 
 	mu          sync.Mutex
-	evals       int64
-	distinct    map[string]struct{}
+	shards      [64]evalShard
 	outcomes    map[string]int64
 	samples     []any
 	extra       map[string]any
@@ -51,6 +50,22 @@ type Run struct {
 	maxViol     int
 }
 
+type evalShard struct {
+	mu       sync.Mutex
+	evals    int64
+	distinct map[uint64]struct{}
+	outcomes map[string]int64
+	_        [40]byte
+}
+
+func fnv(s string) uint64 {
+	h := uint64(14695981039346656037)
+	for i := 0; i < len(s); i++ {
+		h = (h ^ uint64(s[i])) * 1099511628211
+	}
+	return h
+}
+
 type violation struct {
 	Key    string `json:"key"`
 	What   string `json:"what"`
@@ -61,7 +76,7 @@ type violation struct {
 func Begin(id, tier, level string) *Run {
 	seed, _ := strconv.ParseInt(os.Getenv("VERIF_SEED"), 10, 64)
 	r := &Run{ID: id, Tier: tier, Level: level, Seed: seed, start: time.Now(),
-		distinct: map[string]struct{}{}, outcomes: map[string]int64{}, extra: map[string]any{},
+		outcomes: map[string]int64{}, extra: map[string]any{},
 		known: map[string]int{}, exhaustive: true, maxViol: 20}
 	b, err := os.ReadFile(filepath.Join(Root(), "known_findings.json"))
 	if err == nil {
@@ -82,9 +97,9 @@ func Begin(id, tier, level string) *Run {
 func (r *Run) Thorough() bool { return r.Tier == "thorough" }
 
 // Rule states how cases are enumerated and what makes one distinct/non-trivial.
-func (r *Run) Rule(s string)             { r.rule = s }
-func (r *Run) Assume(s ...string)        { r.assumptions = append(r.assumptions, s...) }
-func (r *Run) Set(k string, v any)       { r.mu.Lock(); r.extra[k] = v; r.mu.Unlock() }
+func (r *Run) Rule(s string)       { r.rule = s }
+func (r *Run) Assume(s ...string)  { r.assumptions = append(r.assumptions, s...) }
+func (r *Run) Set(k string, v any) { r.mu.Lock(); r.extra[k] = v; r.mu.Unlock() }
 func (r *Run) Add(k string, n int64) {
 	r.mu.Lock()
 	v, _ := r.extra[k].(int64)
@@ -103,15 +118,36 @@ func (r *Run) Cap(s string) {
 // Eval counts one evaluated case. key=="" means trivial (not counted as distinct
 // non-trivial); outcome is the observable class (histogram).
 func (r *Run) Eval(key, outcome string) {
-	r.mu.Lock()
-	r.evals++
+	h := fnv(key)
+	sh := &r.shards[(h>>7)%64]
+	sh.mu.Lock()
+	sh.evals++
+	if sh.distinct == nil {
+		sh.distinct = map[uint64]struct{}{}
+		sh.outcomes = map[string]int64{}
+	}
 	if key != "" {
-		r.distinct[key] = struct{}{}
+		sh.distinct[h] = struct{}{} // 64-bit FNV-1a of the canonical key
 	}
 	if outcome != "" {
-		r.outcomes[outcome]++
+		sh.outcomes[outcome]++
 	}
-	r.mu.Unlock()
+	sh.mu.Unlock()
+}
+
+func (r *Run) totals() (evals int64, distinct int) {
+	for i := range r.shards {
+		sh := &r.shards[i]
+		sh.mu.Lock()
+		evals += sh.evals
+		distinct += len(sh.distinct)
+		for k, v := range sh.outcomes {
+			r.outcomes[k] += v
+		}
+		sh.outcomes = map[string]int64{}
+		sh.mu.Unlock()
+	}
+	return
 }
 
 // Sample keeps up to 6 written-out cases (first ones and the most recent).
@@ -153,12 +189,13 @@ func (r *Run) Violations() int { r.mu.Lock(); defer r.mu.Unlock(); return len(r.
 // Finish writes the evidence file and exits with the verdict.
 func (r *Run) Finish() {
 	wall := time.Since(r.start).Seconds()
+	evals, ndistinct := r.totals()
 	cov := map[string]any{}
 	for k, v := range r.extra {
 		cov[k] = v
 	}
-	cov["evaluations"] = r.evals
-	cov["distinct_nontrivial"] = len(r.distinct)
+	cov["evaluations"] = evals
+	cov["distinct_nontrivial"] = ndistinct
 	cov["rule"] = r.rule
 	cov["outcomes"] = r.outcomes
 	cov["distinct_outcomes"] = len(r.outcomes)
@@ -192,7 +229,7 @@ func (r *Run) Finish() {
 		}
 	}
 	fmt.Printf("%s %s: evaluations=%d distinct_nontrivial=%d outcomes=%d exhaustive=%v wall=%.1fs\n",
-		r.ID, r.Tier, r.evals, len(r.distinct), len(r.outcomes), r.exhaustive, wall)
+		r.ID, r.Tier, evals, ndistinct, len(r.outcomes), r.exhaustive, wall)
 	keys := make([]string, 0, len(r.outcomes))
 	for k := range r.outcomes {
 		keys = append(keys, k)
